@@ -433,3 +433,31 @@ type c19iWorld struct {
 	perType map[string]map[string]bool
 	log     string
 }
+
+// c20-ticker: the daily metrics ticker fires while requests are in flight (race mode only matters).
+func init() {
+	harnesses = append(harnesses, &vs.Harness{
+		Name:     "c20-ticker",
+		Horizon:  25 * time.Hour,
+		MaxSteps: 100000,
+		Body: func(x *vs.X) {
+			keepMetricsOrder = true
+			w := newWorld()
+			keepMetricsOrder = false
+			x.User = w
+			var buf bytes.Buffer
+			w.ctx.metrics.logger = log.New(&buf, "", 0)
+			day := 24 * time.Hour
+			// requests whose metrics updates coincide with the ticker's printMetrics/zeroMetrics
+			p := w.addProxy(NATUnrestricted, "standalone", 0, day-10*time.Second, ansNever) // idle poll ends exactly at 24 h
+			c := w.addClient("restricted", "", day, viaIPC)                                  // denied exactly at 24 h
+			p2 := w.addProxy(NATUnrestricted, "webext", 0, day, ansPrompt)                   // polls exactly at 24 h
+			_ = p
+			_ = c
+			_ = p2
+			w.start()
+			x.Outcome("ticker")
+		},
+		Check: func(x *vs.X) {},
+	})
+}
